@@ -582,10 +582,27 @@ impl<'a, 'b> Gen<'a, 'b> {
     /// (let loop ((i 0) (acc INIT)) (if (< i N) (loop (+ i 1) STEP) acc))
     fn loop_int(&mut self, d: usize) -> Sx {
         self.features.insert("named-let");
-        let init = self.gen(&Ty::Int, d - 1);
+        let mut init = self.gen(&Ty::Int, d - 1);
+        let mut tag = "loop".to_string();
+        // now and then the loop is named like a variable that its own initialiser reads: the
+        // initialisers are outside the scope of the tag
+        if self.c.chance(36) {
+            if let Some(v) = self.pick_var(&Ty::Int) {
+                if !matches!(v.name.as_str(), "i" | "acc" | "loop") {
+                    tag = v.name.clone();
+                    init = call("+", vec![s(&v.name), init]);
+                    self.features.insert("named-let-tag-shadows-a-variable-its-initialiser-reads");
+                }
+            }
+        }
         let n = self.c.range(0, 5);
         let mark = self.scope.len();
         self.contour += 1;
+        if tag != "loop" {
+            // inside the loop the name denotes the loop procedure: hide the integer
+            let hidden = ProcTy { params: vec![Ty::Promise(Box::new(Ty::Vector))], rest: None, ret: Ty::Promise(Box::new(Ty::Vector)) };
+            self.bind_local(&tag, Ty::Proc(Rc::new(hidden)), false);
+        }
         self.bind_local("i", Ty::Small, false);
         self.bind_local("acc", Ty::Int, false);
         let step = self.gen(&Ty::Int, d - 1);
@@ -593,13 +610,13 @@ impl<'a, 'b> Gen<'a, 'b> {
         self.contour -= 1;
         lst(vec![
             s("let"),
-            s("loop"),
+            s(&tag),
             lst(vec![lst(vec![s("i"), int(0)]), lst(vec![s("acc"), init])]),
             call(
                 "if",
                 vec![
                     call("<", vec![s("i"), int(n)]),
-                    call("loop", vec![call("+", vec![s("i"), int(1)]), step]),
+                    call(&tag, vec![call("+", vec![s("i"), int(1)]), step]),
                     s("acc"),
                 ],
             ),
@@ -1854,6 +1871,25 @@ impl<'a, 'b> Gen<'a, 'b> {
                 _ => self.probe_form(d),
             };
             forms.push(form);
+        }
+        // now and then a run of consecutive top-level forms becomes one top-level `begin`, its
+        // first forms in a nested `begin` (a top-level begin is spliced: same meaning, one form)
+        if !self.cfg.callcc && forms.len() >= 2 && self.c.chance(48) {
+            let len = 2 + self.c.below((forms.len() - 1).min(3));
+            let start = self.c.below(forms.len() - len + 1);
+            let group: Vec<Sx> = forms.drain(start..start + len).collect();
+            let mut outer = vec![s("begin")];
+            if group.len() >= 3 || self.c.flip() {
+                let k = 2.min(group.len() - 1).max(1);
+                let mut inner = vec![s("begin")];
+                inner.extend(group[..k].iter().cloned());
+                outer.push(lst(inner));
+                outer.extend(group[k..].iter().cloned());
+            } else {
+                outer.extend(group);
+            }
+            forms.insert(start, lst(outer));
+            self.features.insert("toplevel-forms-grouped-in-nested-begin");
         }
         let globals = self.scope.iter().filter(|v| v.global).map(|v| v.name.clone()).collect();
         Session { forms, features: self.features.clone(), globals }
